@@ -100,7 +100,7 @@ Section WorldTerm.
     WInv w -> step po lab w o = (w', ob) ->
     forall nm cs out, In (FxPatch nm cs out) (ob_fx ob) ->
     exists w1 cached key outs w2 ob2,
-      WInv w1 /\ w_ctl w1 = w_ctl w /\ w_svc w1 = w_svc w /\ (forall n, cached = Some n -> wf_node n) /\
+      WInv w1 /\ w_ctl w1 = w_ctl w /\ w_svc w1 = w_svc w /\ w_ncache w1 = w_ncache w /\ (forall n, cached = Some n -> wf_node n) /\
       run_node_sync po lab w1 cached key outs = (w2, ob2) /\ In (FxPatch nm cs out) (ob_fx ob2) /\ w_ctl w' = w_ctl w2.
   Proof.
     intros I H nm cs out He.
@@ -123,7 +123,7 @@ Section WorldTerm.
       split.
       { destruct I as [a1 b1 c1 d1 e1 f1 g1 h1 i1 j1]. constructor; cbn; try assumption.
         intros wk' k n Hin. apply filter_In in Hin. destruct Hin as [Hin _]. eapply g1. exact Hin. }
-      split; [reflexivity|]. split; [reflexivity|]. split.
+      split; [reflexivity|]. split; [reflexivity|]. split; [reflexivity|]. split.
       { intros n E. subst cached. apply find_some in Ef. destruct Ef as [Hin _]. eapply (wi_nfetch w I). exact Hin. }
       split; [exact H|]. split; [exact He|reflexivity].
     - destruct (find (fun x => fst x =? w0) (w_cfetch w)) as [[wk [key cached]]|]; [|inversion H; subst; destruct He].
@@ -134,7 +134,7 @@ Section WorldTerm.
         destruct (run_node_sync po lab w1 c k os) as [w2 ob2] eqn:Er; exists w1, c, k, os, w2, ob2 end.
       assert (He2 : In (FxPatch nm cs out) (ob_fx ob2)).
       { destruct (ob_res ob2 =? 2); inversion H; subst; exact He. }
-      split; [apply set_queues_winv; exact I|]. split; [cbn; exact Em|]. split; [reflexivity|]. split.
+      split; [apply set_queues_winv; exact I|]. split; [cbn; exact Em|]. split; [reflexivity|]. split; [reflexivity|]. split.
       { cbn [set_queues w_ncache]. intros n E. eapply cached_node_wf; eassumption. }
       split; [exact Er|]. split; [exact He2|]. destruct (ob_res ob2 =? 2); inversion H; subst; reflexivity.
     - destruct (w_ctl w) as [m|]; [|inversion H; subst; destruct He].
@@ -160,7 +160,7 @@ Section WorldTerm.
     forall nm cs out, In (FxPatch nm cs out) (ob_fx ob) -> live_ok w w' nm cs.
   Proof.
     intros I K H nm cs out He.
-    destruct (step_patch_is_node_item w o w' ob I H nm cs out He) as (w1 & cached & key & outs & w2 & ob2 & I1 & Ec & Es & Hc & Hr & He2 & Ew).
+    destruct (step_patch_is_node_item w o w' ob I H nm cs out He) as (w1 & cached & key & outs & w2 & ob2 & I1 & Ec & Es & Ecache & Hc & Hr & He2 & Ew).
     unfold run_node_sync in Hr. destruct (w_ctl w1) as [m|] eqn:Em; [|inversion Hr; subst; destruct He2].
     destruct (sync_node po lab (svc_list (w_svc w1)) (can_patch w1 key) (api_same w1 key) (held_cidrs (w_ncache w1)) m cached (find_node key (w_ncache w1)) outs)
       as [[m' r] fx] eqn:Esn.
@@ -184,3 +184,265 @@ Section WorldTerm.
     intros H. apply step_patch_live; [apply run_winv; [apply winv_init|exact H]|apply run_wk; [apply winv_init|intros m E; discriminate E|exact H]].
   Qed.
 End WorldTerm.
+
+(* ---------- C07 / C05: the serving entry is the FIRST of the offered order that has room ---------- *)
+Lemma prioritized_try_split held ps : forall m m' cs p, prioritized_try held m ps = (m', Ok (cs, p)) ->
+  exists pre post mk e, ps = pre ++ p :: post /\ prioritized_try held m pre = (mk, Err e).
+Proof.
+  induction ps as [|p0 ps IH]; intros m m' cs p H; [cbn in H; discriminate|].
+  assert (Hhere : exists pre post mk e, p0 :: ps = pre ++ p0 :: post /\ prioritized_try held m pre = (mk, Err e))
+    by (exists [], ps, m, ENoAvail; split; reflexivity).
+  assert (Hlater : forall m3, prioritized_try held m (p0 :: ps) = prioritized_try held m3 ps ->
+            (forall pre, prioritized_try held m (p0 :: pre) = prioritized_try held m3 pre) ->
+            prioritized_try held m3 ps = (m', Ok (cs, p)) ->
+            exists pre post mk e, p0 :: ps = pre ++ p :: post /\ prioritized_try held m pre = (mk, Err e)).
+  { intros m3 _ Hpre H3. destruct (IH m3 m' cs p H3) as (pre & post & mk & e & E & Hp). exists (p0 :: pre), post, mk, e.
+    split; [rewrite E; reflexivity|]. rewrite Hpre. exact Hp. }
+  cbn [prioritized_try] in H, Hlater.
+  destruct (get_entry m p0) as [c|]; [|discriminate].
+  destruct (cc_v4 c) as [p4|].
+  - destruct (allocate_cidr held m p0 V4) as [m1 r4]. destruct r4 as [x4|e4|]; [|apply (Hlater m1); [reflexivity|intros; reflexivity|exact H]|discriminate].
+    destruct (cc_v6 c) as [p6|].
+    + destruct (allocate_cidr held m1 p0 V6) as [m2 r6]. destruct r6 as [x6|e6|]; [inversion H; subst; exact Hhere| |discriminate].
+      match type of H with prioritized_try held ?m3 ps = _ => apply (Hlater m3); [reflexivity|intros; reflexivity|exact H] end.
+    + inversion H; subst. exact Hhere.
+  - destruct (cc_v6 c) as [p6|].
+    + destruct (allocate_cidr held m p0 V6) as [m2 r6]. destruct r6 as [x6|e6|]; [inversion H; subst; exact Hhere|apply (Hlater m2); [reflexivity|intros; reflexivity|exact H]|discriminate].
+    + inversion H; subst. exact Hhere.
+Qed.
+
+Theorem prioritized_try_first held ps m m' cs p :
+  MapInv m -> prioritized_try held m ps = (m', Ok (cs, p)) ->
+  exists pre post, ps = pre ++ p :: post /\ forall q c0, In q pre -> get_entry m q = Some c0 -> no_room m held c0.
+Proof.
+  intros M H. destruct (prioritized_try_split _ _ _ _ _ _ H) as (pre & post & mk & e & E & Hp).
+  exists pre, post. split; [exact E|]. intros q c0 Hq Hg.
+  exact (prioritized_try_refusal held pre m m mk e M (msim_refl m) Hp q c0 Hq Hg).
+Qed.
+
+(* the choice made by a node work item *)
+Definition patch_choice (po : parse_oracle) (lab : label_oracle) (held : list cidr) (m : cidrmap) (ls : labels) (p : path) : Prop :=
+  exists ps pre post, ordered_matching po lab m ls true = Ok ps /\ ps = pre ++ p :: post /\
+    forall q c0, In q pre -> get_entry m q = Some c0 -> no_room m held c0.
+
+Theorem sync_node_choice po lab svcs canp apisame held m cached reread outs m' r fx :
+  MapInv m -> sync_node po lab svcs canp apisame held m cached reread outs = (m', r, fx) ->
+  forall nm cs o, In (FxPatch nm cs o) fx ->
+  exists node p, cached = Some node /\ nm = n_name node /\ patch_choice po lab held m (n_labels node) p /\
+    (r = Ok tt -> exists e', get_entry m' p = Some e' /\ has_str nm (cc_assoc e') = true /\
+                   forall x, In x cs -> exists pl, pool_of e' (cf x) = Some pl /\ In x (used pl)).
+Proof.
+  intros M H nm cs o Hin. unfold sync_node in H. destruct cached as [node|]; [|inversion H; subst; destruct Hin].
+  destruct (n_deleting node).
+  { destruct (release_cidr svcs m node) as [m1 r1]. inversion H; subst. destruct Hin. }
+  unfold allocate_or_occupy in H. destruct (n_cidrs node) as [|c0 cs0] eqn:En.
+  2:{ destruct reread; [destruct (occupy_cidrs po lab m node) as [m1 r1]|]; inversion H; subst; destruct Hin. }
+  destruct (prioritized_cidrs po lab held m node) as [m1 rp] eqn:Ep.
+  destruct rp as [[cs1 p]|e|].
+  - destruct cs1 as [|c1 cs1'].
+    + inversion H; subst. destruct Hin as [Ho|[]]. discriminate Ho.
+    + destruct (update_patches_only_unassigned _ _ _ _ _ _ _ _ _ _ _ H _ Hin eq_refl) as [_ (o' & Ho')]. inversion Ho'; subst nm cs o'.
+      unfold prioritized_cidrs in Ep. destruct (ordered_matching po lab m (n_labels node) true) as [ps|e|] eqn:Eo; try discriminate.
+      destruct (prioritized_try_first _ _ _ _ _ _ M Ep) as (pre & post & E & Hpre).
+      pose proof (prioritized_try_result _ _ _ _ _ M Ep) as (_ & _ & (e1 & Hg1 & Hk1)).
+      exists node, p. split; [reflexivity|]. split; [reflexivity|]. split; [exists ps, pre, post; split; [exact Eo|split; [exact E|exact Hpre]]|].
+      intros Hr. subst r. destruct (update_ok_assoc _ _ _ _ _ _ _ _ _ _ H (ex_intro _ o Hin)) as (c & Hgc & Hm').
+      rewrite Hg1 in Hgc. inversion Hgc; subst c. exists (add_assoc (n_name node) e1).
+      split; [rewrite Hm'; eapply get_set_entry_same; exact Hg1|]. split; [apply add_assoc_has|].
+      intros x Hx. destruct (Hk1 x Hx) as (pl & Hpl & Hu). exists pl. split; [destruct (cf x); exact Hpl|exact Hu].
+  - inversion H; subst. destruct Hin as [Ho|[]]. discriminate Ho.
+  - inversion H; subst. destruct Hin.
+Qed.
+
+Section WorldChoice.
+  Variable po : parse_oracle.
+  Variable lab : label_oracle.
+
+  (* C07 over histories: every PATCH serves the node from the first entry, in the order offered for the labels of the copy of
+     the node the work item was started with, that has room -- every entry before it has, in one of its families, no
+     block free of overlap with CIDRs in use *)
+  Theorem history_patch_is_first_with_room ops o w' ob : Forall wf_op ops ->
+    let w := run po lab init_world ops in
+    step po lab w o = (w', ob) ->
+    forall nm cs out, In (FxPatch nm cs out) (ob_fx ob) ->
+    exists m node p, w_ctl w = Some m /\ nm = n_name node /\ patch_choice po lab (held_cidrs (w_ncache w)) m (n_labels node) p.
+  Proof.
+    intros H w Hs nm cs out He.
+    assert (I : WInv w) by (apply run_winv; [apply winv_init|exact H]).
+    destruct (step_patch_is_node_item po lab w o w' ob I Hs nm cs out He) as (w1 & cached & key & outs & w2 & ob2 & I1 & Ec & Es & Ecache & Hc & Hr & He2 & Ew).
+    unfold run_node_sync in Hr. destruct (w_ctl w1) as [m|] eqn:Em; [|inversion Hr; subst; destruct He2].
+    destruct (sync_node po lab (svc_list (w_svc w1)) (can_patch w1 key) (api_same w1 key) (held_cidrs (w_ncache w1)) m cached (find_node key (w_ncache w1)) outs)
+      as [[m' r] fx] eqn:Esn.
+    inversion Hr; subst w2 ob2. cbn [ob_fx] in He2.
+    destruct (sync_node_choice _ _ _ _ _ _ _ _ _ _ _ _ _ (wi_ctl w1 I1 m Em) Esn nm cs out He2) as (node & p & _ & Hn & Hch & _).
+    exists m, node, p. split; [symmetry; exact Ec|]. split; [exact Hn|]. rewrite <- Ecache. exact Hch.
+  Qed.
+End WorldChoice.
+
+(* ---------- C02: one block per family the serving entry has, IPv4 first ---------- *)
+Definition succ_at (held : list cidr) (mk : cidrmap) (p : path) (cs : list cidr) (m' : cidrmap) : Prop :=
+  exists c, get_entry mk p = Some c /\
+    match cc_v4 c, cc_v6 c with
+    | Some _, Some _ => exists m1 x4 x6, allocate_cidr held mk p V4 = (m1, Ok x4) /\ allocate_cidr held m1 p V6 = (m', Ok x6) /\ cs = [x4; x6]
+    | Some _, None => exists x4, allocate_cidr held mk p V4 = (m', Ok x4) /\ cs = [x4]
+    | None, Some _ => exists x6, allocate_cidr held mk p V6 = (m', Ok x6) /\ cs = [x6]
+    | None, None => m' = mk /\ cs = []
+    end.
+
+Lemma prioritized_try_split2 held ps : forall m m' cs p, prioritized_try held m ps = (m', Ok (cs, p)) ->
+  exists pre post mk e, ps = pre ++ p :: post /\ prioritized_try held m pre = (mk, Err e) /\ succ_at held mk p cs m'.
+Proof.
+  induction ps as [|p0 ps IH]; intros m m' cs p H; [cbn in H; discriminate|].
+  assert (Hlater : forall m3, (forall pre, prioritized_try held m (p0 :: pre) = prioritized_try held m3 pre) ->
+            prioritized_try held m3 ps = (m', Ok (cs, p)) ->
+            exists pre post mk e, p0 :: ps = pre ++ p :: post /\ prioritized_try held m pre = (mk, Err e) /\ succ_at held mk p cs m').
+  { intros m3 Hpre H3. destruct (IH m3 m' cs p H3) as (pre & post & mk & e & E & Hp & Hs). exists (p0 :: pre), post, mk, e.
+    split; [rewrite E; reflexivity|]. split; [rewrite Hpre; exact Hp|exact Hs]. }
+  cbn [prioritized_try] in H, Hlater.
+  destruct (get_entry m p0) as [c|] eqn:Eg; [|discriminate].
+  assert (Hhere : succ_at held m p0 cs m' -> p = p0 ->
+            exists pre post mk e, p0 :: ps = pre ++ p :: post /\ prioritized_try held m pre = (mk, Err e) /\ succ_at held mk p cs m').
+  { intros Hs ->. exists [], ps, m, ENoAvail. split; [reflexivity|split; [reflexivity|exact Hs]]. }
+  destruct (cc_v4 c) as [p4|] eqn:E4.
+  - destruct (allocate_cidr held m p0 V4) as [m1 r4] eqn:Ea4. destruct r4 as [x4|e4|]; [|apply (Hlater m1); [intros; reflexivity|exact H]|discriminate].
+    destruct (cc_v6 c) as [p6|] eqn:E6.
+    + destruct (allocate_cidr held m1 p0 V6) as [m2 r6] eqn:Ea6. destruct r6 as [x6|e6|]; [| |discriminate].
+      * inversion H; subst. apply Hhere; [|reflexivity]. exists c. split; [exact Eg|]. rewrite E4, E6. exists m1, x4, x6. repeat split; assumption.
+      * match type of H with prioritized_try held ?m3 ps = _ => apply (Hlater m3); [intros; reflexivity|exact H] end.
+    + inversion H; subst. apply Hhere; [|reflexivity]. exists c. split; [exact Eg|]. rewrite E4, E6. exists x4. split; [exact Ea4|reflexivity].
+  - destruct (cc_v6 c) as [p6|] eqn:E6.
+    + destruct (allocate_cidr held m p0 V6) as [m2 r6] eqn:Ea6. destruct r6 as [x6|e6|]; [|apply (Hlater m2); [intros; reflexivity|exact H]|discriminate].
+      inversion H; subst. apply Hhere; [|reflexivity]. exists c. split; [exact Eg|]. rewrite E4, E6. exists x6. split; [exact Ea6|reflexivity].
+    + inversion H; subst. apply Hhere; [|reflexivity]. exists c. split; [exact Eg|]. rewrite E4, E6. split; reflexivity.
+Qed.
+
+Definition shape_ok (e : ccset) (cs : list cidr) : Prop :=
+  match cc_v4 e, cc_v6 e with
+  | Some p4, Some p6 => exists i j, i < maxc (pg p4) /\ j < maxc (pg p6) /\ cs = [block (pg p4) i; block (pg p6) j]
+  | Some p4, None => exists i, i < maxc (pg p4) /\ cs = [block (pg p4) i]
+  | None, Some p6 => exists j, j < maxc (pg p6) /\ cs = [block (pg p6) j]
+  | None, None => cs = []
+  end.
+
+Lemma alloc_block held mk p f c pl m' x :
+  MapInv mk -> get_entry mk p = Some c -> pool_of c f = Some pl -> allocate_cidr held mk p f = (m', Ok x) ->
+  (exists j, j < maxc (pg pl) /\ x = block (pg pl) j) /\
+  exists c2, get_entry m' p = Some c2 /\ forall f', f' <> f -> orel psim (pool_of c f') (pool_of c2 f').
+Proof.
+  intros M Hg Hp H. destruct (pool_of_PI c f pl (get_entry_inv _ _ _ M Hg) Hp) as (I & Hf & _).
+  destruct (allocate_cidr_ok_shape held mk p f c pl m' x Hg Hp I Hf H) as (m1 & c1 & c2 & pl1 & j & Hms & Hg1 & Hp1 & I1 & Hgeo & Hj & Hx & _ & _ & Hocc & Hm').
+  split; [exists j; split; assumption|].
+  exists c2. split; [rewrite Hm'; eapply get_set_entry_same; exact Hg1|].
+  intros f' Hne. pose proof (msim_get _ _ p Hms) as Ho. rewrite Hg, Hg1 in Ho. cbn in Ho. destruct Ho as (A4 & A6 & _).
+  assert (Hc2 : pool_of c2 f' = pool_of c1 f').
+  { unfold cc_occupy in Hocc. destruct (pool_of c1 (cf x)) as [q|] eqn:Eq; [|discriminate]. destruct (occupy q x); [|discriminate]. inversion Hocc; subst c2.
+    apply pool_of_with_pool_other. intros E. apply Hne. rewrite <- E, Hx. cbn. exact Hf. }
+  rewrite Hc2. destruct f'; cbn; assumption.
+Qed.
+
+Theorem prioritized_try_blocks held ps m m' cs p :
+  MapInv m -> prioritized_try held m ps = (m', Ok (cs, p)) -> exists e, get_entry m p = Some e /\ shape_ok e cs.
+Proof.
+  intros M H. destruct (prioritized_try_split2 _ _ _ _ _ _ H) as (pre & post & mk & er & _ & Hp & (c & Hgc & Hs)).
+  pose proof (prioritized_try_result _ _ _ _ _ M Hp) as Hms. cbn in Hms.
+  destruct (prioritized_try_inv _ _ _ _ _ M Hp) as [Mk _].
+  pose proof (msim_get _ _ p Hms) as Ho. rewrite Hgc in Ho. destruct (get_entry m p) as [e|] eqn:Ege; [|contradiction]. cbn in Ho.
+  destruct Ho as (A4 & A6 & _). exists e. split; [reflexivity|]. unfold shape_ok.
+  destruct (cc_v4 c) as [pl4|] eqn:E4, (cc_v6 c) as [pl6|] eqn:E6;
+    destruct (cc_v4 e) as [q4|], (cc_v6 e) as [q6|]; cbn in A4, A6; try contradiction.
+  - destruct Hs as (m1 & x4 & x6 & Ha4 & Ha6 & ->).
+    destruct (alloc_block held mk p V4 c pl4 m1 x4 Mk Hgc E4 Ha4) as ((i & Hi & Hx4) & (c2 & Hg2 & Hoth)).
+    pose proof (Hoth V6 ltac:(discriminate)) as Ho6. cbn in Ho6. rewrite E6 in Ho6. destruct (cc_v6 c2) as [pl6'|] eqn:E62; [|contradiction]. cbn in Ho6.
+    pose proof (allocate_cidr_inv _ _ _ _ _ _ Mk Ha4) as M1.
+    destruct (alloc_block held m1 p V6 c2 pl6' m' x6 M1 Hg2 E62 Ha6) as ((j & Hj & Hx6) & _).
+    destruct A4 as [G4 _]. destruct A6 as [G6 _]. destruct Ho6 as [G6' _].
+    exists i, j. rewrite G4, G6. rewrite <- G6' in Hj, Hx6. split; [exact Hi|split; [exact Hj|rewrite Hx4, Hx6; reflexivity]].
+  - destruct Hs as (x4 & Ha4 & ->).
+    destruct (alloc_block held mk p V4 c pl4 m' x4 Mk Hgc E4 Ha4) as ((i & Hi & Hx4) & _).
+    destruct A4 as [G4 _]. exists i. rewrite G4. split; [exact Hi|rewrite Hx4; reflexivity].
+  - destruct Hs as (x6 & Ha6 & ->).
+    destruct (alloc_block held mk p V6 c pl6 m' x6 Mk Hgc E6 Ha6) as ((j & Hj & Hx6) & _).
+    destruct A6 as [G6 _]. exists j. rewrite G6. split; [exact Hj|rewrite Hx6; reflexivity].
+  - destruct Hs as [_ ->]. reflexivity.
+Qed.
+
+(* the offered entries are those whose selector the labels satisfy, and the selector-less ones *)
+Lemma collect_items_matching po lab ls occ : forall m items, collect_items po lab ls occ m = Some items ->
+  forall it, In it items -> exists rs, po (fst (snd it)) = Some rs /\ fst (match_reqs ls rs) = true.
+Proof.
+  induction m as [|[k ents] m IH]; intros items H it Hit; cbn [collect_items] in H; [inversion H; subst; destruct Hit|].
+  destruct (po k) as [rs|] eqn:Ek; [|discriminate]. destruct (match_reqs ls rs) as [ok cnt] eqn:Em.
+  destruct (collect_items po lab ls occ m) as [rest|] eqn:Er; [|discriminate].
+  destruct ok; inversion H; subst; [|eapply IH; [reflexivity|exact Hit]].
+  apply in_app_or in Hit. destruct Hit as [Hit|Hit]; [|eapply IH; [reflexivity|exact Hit]].
+  apply in_map_iff in Hit. destruct Hit as ([i c] & <- & _). cbn [fst snd]. exists rs. split; [exact Ek|rewrite Em; reflexivity].
+Qed.
+
+Theorem ordered_matching_eligible po lab m ls occ ps : ordered_matching po lab m ls occ = Ok ps ->
+  forall q, In q ps -> fst q = default_key \/ exists rs, po (fst q) = Some rs /\ fst (match_reqs ls rs) = true.
+Proof.
+  intros H. unfold ordered_matching in H. destruct (collect_items po lab ls occ m) as [items|] eqn:Ec; [|discriminate].
+  destruct (forallb (fun it => has_pool (fst it)) items); [|discriminate]. inversion H; subst. clear H.
+  intros q Hq. apply in_app_or in Hq. destruct Hq as [Hq|Hq].
+  - right. apply in_map_iff in Hq. destruct Hq as (it & <- & Hit).
+    apply (Permutation_in _ (Permutation_sym (sort_perm _ _))) in Hit. eapply collect_items_matching; eassumption.
+  - left. destruct (find_key default_key m) as [ents|]; [|destruct Hq].
+    apply in_map_iff in Hq. destruct Hq as ([i c] & <- & _). reflexivity.
+Qed.
+
+(* ---------- C02 as one statement ---------- *)
+Definition assignment_ok (po : parse_oracle) (m : cidrmap) (ls : labels) (cs : list cidr) : Prop :=
+  exists p e, get_entry m p = Some e /\ cc_term e = false /\
+    (fst p = default_key \/ exists rs, po (fst p) = Some rs /\ fst (match_reqs ls rs) = true) /\
+    shape_ok e cs.
+
+Theorem sync_node_assignment po lab svcs canp apisame held m cached reread outs m' r fx :
+  MapInv m -> KU m -> sync_node po lab svcs canp apisame held m cached reread outs = (m', r, fx) ->
+  forall nm cs o, In (FxPatch nm cs o) fx ->
+  exists node, cached = Some node /\ nm = n_name node /\ assignment_ok po m (n_labels node) cs.
+Proof.
+  intros M HK H nm cs o Hin. unfold sync_node in H. destruct cached as [node|]; [|inversion H; subst; destruct Hin].
+  destruct (n_deleting node).
+  { destruct (release_cidr svcs m node) as [m1 r1]. inversion H; subst. destruct Hin. }
+  unfold allocate_or_occupy in H. destruct (n_cidrs node) as [|c0 cs0] eqn:En.
+  2:{ destruct reread; [destruct (occupy_cidrs po lab m node) as [m1 r1]|]; inversion H; subst; destruct Hin. }
+  destruct (prioritized_cidrs po lab held m node) as [m1 rp] eqn:Ep.
+  destruct rp as [[cs1 p]|e|].
+  - destruct cs1 as [|c1 cs1'].
+    + inversion H; subst. destruct Hin as [Ho|[]]. discriminate Ho.
+    + destruct (update_patches_only_unassigned _ _ _ _ _ _ _ _ _ _ _ H _ Hin eq_refl) as [_ (o' & Ho')]. inversion Ho'; subst nm cs o'.
+      unfold prioritized_cidrs in Ep. destruct (ordered_matching po lab m (n_labels node) true) as [ps|e|] eqn:Eo; try discriminate.
+      pose proof (prioritized_try_path _ _ _ _ _ _ Ep) as Hp.
+      destruct (ordered_matching_live _ _ _ _ _ HK Eo p Hp) as (e & Hge & Hte).
+      destruct (prioritized_try_blocks _ _ _ _ _ _ M Ep) as (e2 & Hge2 & Hsh). rewrite Hge in Hge2. inversion Hge2; subst e2.
+      exists node. split; [reflexivity|]. split; [reflexivity|]. exists p, e. split; [exact Hge|]. split; [exact Hte|]. split; [|exact Hsh].
+      exact (ordered_matching_eligible _ _ _ _ _ _ Eo p Hp).
+  - inversion H; subst. destruct Hin as [Ho|[]]. discriminate Ho.
+  - inversion H; subst. destruct Hin.
+Qed.
+
+Section WorldAssign.
+  Variable po : parse_oracle.
+  Variable lab : label_oracle.
+
+  (* C02 over histories: every PATCH of every step carries, for ONE entry of the controller's state that is not terminating
+     and whose selector the labels of the node (as the work item saw it) satisfy -- or that has no selector -- exactly one
+     block of each pool the entry has, IPv4 first *)
+  Theorem history_assignment_ok ops o w' ob : Forall wf_op ops ->
+    let w := run po lab init_world ops in
+    step po lab w o = (w', ob) ->
+    forall nm cs out, In (FxPatch nm cs out) (ob_fx ob) ->
+    exists m node, w_ctl w = Some m /\ nm = n_name node /\ assignment_ok po m (n_labels node) cs.
+  Proof.
+    intros H w Hs nm cs out He.
+    assert (I : WInv w) by (apply run_winv; [apply winv_init|exact H]).
+    assert (K : WK w) by (apply run_wk; [apply winv_init|intros m E; discriminate E|exact H]).
+    destruct (step_patch_is_node_item po lab w o w' ob I Hs nm cs out He) as (w1 & cached & key & outs & w2 & ob2 & I1 & Ec & Es & Ecache & Hc & Hr & He2 & Ew).
+    unfold run_node_sync in Hr. destruct (w_ctl w1) as [m|] eqn:Em; [|inversion Hr; subst; destruct He2].
+    destruct (sync_node po lab (svc_list (w_svc w1)) (can_patch w1 key) (api_same w1 key) (held_cidrs (w_ncache w1)) m cached (find_node key (w_ncache w1)) outs)
+      as [[m' r] fx] eqn:Esn.
+    inversion Hr; subst w2 ob2. cbn [ob_fx] in He2.
+    destruct (sync_node_assignment _ _ _ _ _ _ _ _ _ _ _ _ _ (wi_ctl w1 I1 m Em) (K m (eq_sym Ec)) Esn nm cs out He2) as (node & _ & Hn & Ha).
+    exists m, node. split; [symmetry; exact Ec|]. split; [exact Hn|exact Ha].
+  Qed.
+End WorldAssign.
